@@ -175,6 +175,8 @@ def obligations(tier, seed):
             obs.append(TwinOb("quote_schema_only", name, None, d, quote_slots(sql, [s for s in slots if s[2] == "s"], d), 5, seed, sql=sql))
         obs.append(CaseOb(name, None, "ansi", 5, seed, sql=sql))
     lsub = chosen if tier == "thorough" else rnd.sample(chosen, min(len(chosen), 50))
+    # a scalar subquery inside an expression is re-analysed from its TEXT: layout noise inside it always takes part
+    lsub = lsub + [x for x in tpl if "scalar" in x[0] and x not in lsub]
     for k, st in lsub:
         sql = gen.Renderer().stmt(st)
         obs.append(TwinOb("layout", k, st, "ansi", noisy(sql), 3, seed))
